@@ -569,6 +569,10 @@ func c05CrashChildMain(t *testing.T) {
 			case !res.Response || res.Id != req.Id || len(res.Question) != 1 ||
 				!strings.EqualFold(res.Question[0].Name, name) || res.Question[0].Qtype != qt:
 				note(&rep.Malformed, "%s: response does not match the request: %v", what(), res)
+			default:
+				if v := c05WireCheck(req, res); v != "" {
+					note(&rep.Malformed, "%s: %s", what(), v)
+				}
 			}
 		})
 		queries.Add(1)
